@@ -102,6 +102,31 @@ def run(res, proof):
                             res.violation('macro:different-members-identified', {'history': list(hl)}, o3, 'another object or a refusal')
                     del m, members, smallest
                     lines.extend(hl); impl.extend(ho)
+    # ---- an unnamed macrostate is named after (represented by) its canonically smallest member, whatever else is alive:
+    #      while the one-member macrostate of that member holds the name, the request is refused - it is never renamed
+    for k in (2, 3):
+        for sub in itertools.combinations(CX, k):
+            for order in (sub, tuple(reversed(sub))):
+                hl, ho = start()
+                members = [iw.held[x] for x in sub]
+                smallest = min(members, key=lambda c: c.canonical_form)
+                sidx = sub[members.index(smallest)]
+                o1 = step(hl, ho, 'mk.macro\t0\t-\t%s' % hs([sidx]))
+                o2 = step(hl, ho, 'mk.macro\t0\t-\t%s' % hs(order))
+                res.evaluations += 1
+                res.count('unnamed_macrostate_while_name_is_taken')
+                if o2.startswith('ret h9'):
+                    m2 = iw.held[9]
+                    if m2.name != smallest.name or m2.representative is not smallest:
+                        res.violation('macro:unnamed-not-represented-by-smallest-member', {'history': list(hl)},
+                                      'name %s, representative %s' % (m2.name, m2.representative.name),
+                                      'SingletonError, or a macrostate named after its canonically smallest member %s' % smallest.name)
+                    del m2
+                elif not o2.startswith('err SingletonError'):
+                    res.violation('macro:unnamed-request:' + o2[:30], {'history': list(hl)}, o2, 'SingletonError or the macrostate')
+                del members, smallest
+                lines.extend(hl); impl.extend(ho)
+    caller_owned_arguments(res, iw, start, rng)
     # ---- reactions: all multisets of reactants / products up to size 3 (sampled), all types, all permutations
     multis = [list(c) for n in (1, 2, 3) for c in itertools.combinations_with_replacement(CX[:4], n)]
     combos = [(r, p, t) for r in multis for p in multis for t in RTYPES]
@@ -211,6 +236,70 @@ def run(res, proof):
     except core.DriverBroken as e:
         proof.problem('driver', str(e))
     res.sample(lines[:12])
+
+
+def caller_owned_arguments(res, iw, start, rng):
+    """the lists passed to the constructors belong to the caller: whatever the caller does with them afterwards - reverse,
+    extend, empty - the object keeps its members, their canonical order, its canonical form, name, length / arity, and the same
+    request still denotes it (arguments in canonical order, in reverse order, as lists)"""
+    from dsdobjects.base_classes import MacrostateS, ReactionS
+    for trial in range(24):
+        hl, ho = start()
+        cx = [iw.held[x] for x in CX]
+        k = rng.choice((1, 2, 3))
+        mem = rng.sample(cx, k)
+        canon = sorted(mem, key=lambda c: c.canonical_form)
+        arg = list(canon) if trial % 2 == 0 else list(reversed(canon))
+        desc = {'history': list(hl), 'then': 'MacrostateS(list of %s); the caller changes its list' % ' '.join(c.name for c in arg)}
+        res.evaluations += 1
+        try:
+            m = MacrostateS(arg)
+            snap = (m.name, len(m), [id(c) for c in m.complexes], [id(c) for c in m.canonical_form], id(m.representative), hash(m))
+            # a reaction registered with the macrostate before the caller touches the list
+            rx = ReactionS([m], [m], rtype='condensed')
+            rsnap = (rx.name, rx.arity, [id(c) for c in rx.reactants], [id(c) for c in rx.products], rx.canonical_form, hash(rx))
+            extra = next(c for c in cx if c not in mem)
+            arg.reverse(); arg.append(extra); arg.pop(0)
+            now = (m.name, len(m), [id(c) for c in m.complexes], [id(c) for c in m.canonical_form], id(m.representative), hash(m))
+            if now != snap:
+                res.violation('macro:changed-through-the-callers-list', desc, 'name %s, %d members, %s' % (m.name, len(m), [c.name for c in m.complexes]),
+                              'unchanged: %d members %s' % (k, [c.name for c in canon]))
+            elif MacrostateS(list(canon)) is not m or MacrostateS(list(reversed(canon))) is not m:
+                res.violation('macro:not-found-after-the-caller-changed-its-list', desc, 'another object', 'the same object')
+            else:
+                again = None
+                try:
+                    again = ReactionS([m], [m], rtype='condensed')
+                except Exception as e:
+                    again = 'raised ' + type(e).__name__; e = None
+                rnow = (rx.name, rx.arity, [id(c) for c in rx.reactants], [id(c) for c in rx.products], rx.canonical_form, hash(rx))
+                if again is not rx or rnow != rsnap:
+                    res.violation('reaction:of-a-macrostate-whose-argument-list-changed', desc, repr(again)[:80], 'the same reaction, unchanged')
+                del again
+            del m, rx
+        except Exception as e:
+            res.violation('macro:caller-owned-list:raises:' + type(e).__name__, desc, type(e).__name__, 'objects'); e = None
+        # reactions of complexes, arguments in canonical order (the order the object itself uses) or not
+        r = sorted(rng.choices(cx[:4], k=rng.choice((1, 2, 3))), key=lambda c: c.canonical_form)
+        p = sorted(rng.choices(cx[:4], k=rng.choice((1, 2))), key=lambda c: c.canonical_form)
+        ra, pa = (list(r), list(p)) if trial % 3 else (list(reversed(r)), list(reversed(p)))
+        desc = {'history': list(hl), 'then': 'ReactionS(%s -> %s, open) from lists the caller changes afterwards' % (' + '.join(c.name for c in ra), ' + '.join(c.name for c in pa))}
+        res.evaluations += 1
+        res.count('caller_owned_argument_lists')
+        try:
+            x = ReactionS(ra, pa, rtype='open')
+            snap = (x.name, x.arity, [id(c) for c in x.reactants], [id(c) for c in x.products], x.canonical_form, hash(x))
+            ra.reverse(); ra.append(pa[0]); pa.clear()
+            now = (x.name, x.arity, [id(c) for c in x.reactants], [id(c) for c in x.products], x.canonical_form, hash(x))
+            if now != snap or [id(c) for c in x.reactants] != [id(c) for c in r] or [id(c) for c in x.products] != [id(c) for c in p]:
+                res.violation('reaction:changed-through-the-callers-list', desc, '%s / %s, arity %r' % ([c.name for c in x.reactants], [c.name for c in x.products], x.arity),
+                              '%s / %s in canonical order, arity %r' % ([c.name for c in r], [c.name for c in p], (len(r), len(p))))
+            elif ReactionS(list(reversed(r)), list(p), rtype='open') is not x:
+                res.violation('reaction:not-found-after-the-caller-changed-its-list', desc, 'another object', 'the same object')
+            del x
+        except Exception as e:
+            res.violation('reaction:caller-owned-list:raises:' + type(e).__name__, desc, type(e).__name__, 'objects'); e = None
+        del cx, mem, canon, r, p
 
 
 def replay(body, repo):
